@@ -897,7 +897,7 @@ def _monitor_chunk(args):
     signal.signal(signal.SIGALRM, _alarm)
     out = []
     for case in cases:
-        signal.alarm(6)
+        signal.alarm(60 if case.get("large") else 6)
         try:
             rec, viol = M.run_case(case, Path(tmp))
         except _Timeout:
@@ -930,6 +930,12 @@ def monitor_cases(ctx):
             if name.startswith("plot.plot_") and (ctx.quick or dname.startswith("F:empty")):
                 continue
             cases.append({"seed": rng.randrange(2**31), "directed": dname, "ops": [name]})
+    for lname in M.large_triangles(not ctx.quick):      # HARDENING Q: a selected set of operations on LARGE triangles
+        for name in M.LARGE_OPS + ([] if ctx.quick and "5000" not in lname else M.LARGE_CHART_OPS):
+            if ctx.quick and (lname, name) in {("Q:50x66-rows", "utils.bootstrap"), ("Q:50x66-rows", "plot.build_plot_data")}:
+                continue                                  # 15-30 s each: thorough tier only
+            if name in names:
+                cases.append({"seed": rng.randrange(2**31), "large": lname, "thorough": not ctx.quick, "ops": [name]})
     nseq = 700 if ctx.quick else 6000
     maxlen = 6 if ctx.quick else 12
     for _ in range(nseq):                    # random operation sequences, every position watched
@@ -1024,6 +1030,9 @@ def run(ctx):
         "(monitored by harness/monitor.py and screened by translate/t_inplace.py only)",
         "NumPy view semantics (slices, .T, frombuffer), dtype casting and user callables are not modelled; the "
         "harness detects view aliasing of results with np.shares_memory",
+        "LARGE monitor triangles (140-257 slices merging into one group, 140 periods into one year, 5000-sample arrays, 3300 cells; "
+        "thorough: 2200 slices, 1100 periods, 100000 samples) are judged by the fingerprint monitor only: the heap theorems are "
+        "size-independent, the kernel/entry-point correspondence samples small sizes",
         "the policy-year vals_dict accumulation is tied per produced cell (contributing quarters re-derived with the "
         "module's own share helpers) and at function level (fingerprint + shares_memory)",
     ]
@@ -1172,6 +1181,8 @@ def run(ctx):
             seen_ops.add(name)
         if rec["info"]:
             ctx.hist("monitor-triangle:" + rec["info"].get("shape", "?"))
+            if rec["info"].get("large"):
+                ctx.hist("monitor-triangle:LARGE " + rec["info"]["large"])
             if rec["info"].get("narrow_dtype"):
                 ctx.hist("monitor-triangle:arrays of dtype " + rec["info"]["narrow_dtype"])
             if rec["info"].get("falsy_details"):
@@ -1221,7 +1232,8 @@ def replay(ctx, data):
     if mode == "monitor":
         tmp = ctx.build / "tmp"
         tmp.mkdir(parents=True, exist_ok=True)
-        case = {"seed": data["seed"], "shape": data.get("shape"), "ops": data["ops"], "directed": data.get("directed")}
+        case = {"seed": data["seed"], "shape": data.get("shape"), "ops": data["ops"], "directed": data.get("directed"),
+                "large": data.get("large"), "thorough": data.get("thorough", False)}
         rec, viol = M.run_case(case, Path(tmp))
         print("trace:", rec["trace"])
         for v in viol:
